@@ -8,6 +8,7 @@ CONSTANTS
   MaxCons = 2
   VKinds = {"slice", "bytesbuf", "bufpool"}
   AsIs = {}
+  Prefer = {"pool"}
 INVARIANT Inv
 PROPERTY ActionProps
 CONSTRAINT Bound
